@@ -656,8 +656,9 @@ M("c04-max-to-min", "C04", ANALYSIS,
         # Multiplication - only allow scalar * polynomial''', '''            return min(left_deg, right_deg)
 
         # Multiplication - only allow scalar * polynomial''', "R04.1", "_compute_degree_impl[BinaryOp +]")
-M("c04-iterative-product-max", "C04", ANALYSIS,
-  '''                        result_stack.append(left_deg + right_result)''', '''                        result_stack.append(max(left_deg, right_result))''', "R04.1", "_compute_degree_iterative[BinaryOp *]")
+# (retired 2026-10-04: "c04-iterative-product-max" replaced left_deg + right_result by max(left_deg, right_result) in the arm
+#  that is only reached when one factor has degree 0 -- there max == sum, the mutant was equivalent; twin r-AY-6 makes
+#  the same rewrite on purpose)
 M("c04-drop-negative-exponent-check", "C04", ANALYSIS,
   '''            exp_float = float(exp_val)
             if not exp_float.is_integer() or exp_float < 0:
